@@ -414,19 +414,19 @@ double Date::localOffset() const
 	struct tm* tmL = localtime(&tm);
 	if (!tmL)
 		return 0;
-	int        hL = tmL->tm_hour;
+	int        mL = tmL->tm_hour * 60 + tmL->tm_min;
 	int        dL = tmL->tm_yday;
 	int        yL = tmL->tm_year;
 	struct tm* tmU = gmtime(&tm);
-	int        hU = tmU->tm_hour;
+	int        mU = tmU->tm_hour * 60 + tmU->tm_min;
 	int        dU = tmU->tm_yday;
 	int        yU = tmU->tm_year;
-	int        o = hL - hU;
+	int        o = mL - mU; // in minutes: not every zone is a whole number of hours away from UTC
 	if ((yL > yU && dL < dU) || (yL == yU && dL > dU))
-		o += 24;
+		o += 24 * 60;
 	else if ((yL < yU && dL > dU) || (yL == yU && dL < dU))
-		o -= 24;
-	return o * 3600;
+		o -= 24 * 60;
+	return o * 60;
 }
 
 #ifdef _WIN32
